@@ -2,8 +2,8 @@
    Directives used: ExtrOcamlBasic, ExtrOcamlString only (see DESIGN.md 6);
    Z, positive, Q stay the extracted inductive datatypes. *)
 From Coq Require Import Extraction ExtrOcamlBasic ExtrOcamlString.
-From Iso Require Import Model.Driver.
+From Iso Require Import Model.DriverAll.
 Extraction Language OCaml.
 Cd "Extract/out".
-Extraction "model.ml" Model.Driver.run_line.
+Extraction "model.ml" Model.DriverAll.run_line.
 Cd "../..".
